@@ -429,7 +429,7 @@ func convTypeToTarget(source interface{}, target reflect.Type) (interface{}, err
 		if target.Kind() == reflect.String {
 			s := ""
 			if !IsNull(source) {
-				s = fmt.Sprintf("%v", source)
+				s = sprint(source)
 			}
 			return reflect.ValueOf(s).Convert(target).Interface(), nil
 		}
@@ -1003,8 +1003,54 @@ func convToString(v interface{}) string {
 	case *decimal.Big:
 		return n.String()
 	default:
-		return fmt.Sprintf("%v", v)
+		return sprint(v)
 	}
+}
+
+// sprint is fmt's %v, except that a map or array that contains itself panics - and so ends the evaluation with an
+// error - instead of recursing until the stack overflows, which takes the whole process down. A formula can build
+// such a value: `$t = this` stores the data map in one of its own entries.
+func sprint(v interface{}) string {
+	if containsItself(reflect.ValueOf(v), nil) {
+		panic("can't format a value that contains itself")
+	}
+	return fmt.Sprintf("%v", v)
+}
+
+// containsItself follows maps, slices, arrays and interfaces (what a formula can nest) and reports whether one of
+// the maps or slices on the current path is reached again.
+func containsItself(rv reflect.Value, path []uintptr) bool {
+	switch rv.Kind() {
+	case reflect.Interface:
+		return !rv.IsNil() && containsItself(rv.Elem(), path)
+	case reflect.Map, reflect.Slice:
+		if rv.IsNil() || rv.Len() == 0 {
+			return false
+		}
+		p := rv.Pointer()
+		for _, q := range path {
+			if q == p {
+				return true
+			}
+		}
+		path = append(path, p)
+		if rv.Kind() == reflect.Map {
+			for it := rv.MapRange(); it.Next(); {
+				if containsItself(it.Value(), path) {
+					return true
+				}
+			}
+			return false
+		}
+		fallthrough
+	case reflect.Array:
+		for i := 0; i < rv.Len(); i++ {
+			if containsItself(rv.Index(i), path) {
+				return true
+			}
+		}
+	}
+	return false
 }
 
 func convToNumber(v interface{}) *decimal.Big {
